@@ -42,5 +42,25 @@ func runRoundF(out *vh.Out, tier, path string) (nex, nhb int) {
 	if hbHung {
 		os.WriteFile(path+"/fatal.txt", []byte(HbHangDump), 0o644)
 	}
+	// round g: EVENT frames between responses while the handler of an earlier batch is held
+	re := vh.NewRng(vh.EnvSeed() ^ 0x65766e74)
+	k := 12
+	if tier == "thorough" {
+		k = 120
+	}
+	lines, classes = nil, nil
+	for i := 0; i < k; i++ {
+		line, cls := GenEv(re)
+		lines = append(lines, line)
+		classes = append(classes, cls)
+	}
+	for i, a := range RunEvBatch(lines, 12) {
+		out.Case("reset 128", "ok", "reset", false)
+		out.Case(lines[i], a, classes[i], true)
+		nhb++
+	}
+	if evHung {
+		os.WriteFile(path+"/fatal.txt", []byte(EvHangDump), 0o644)
+	}
 	return
 }
